@@ -190,4 +190,24 @@ CHECKS = {
         trusted_base=TB,
         assumptions=[],
     ),
+    "C05": dict(
+        packs=["c05"], level="other",
+        explanation="Predicate agreement between contains() and the search behind points(): R05.1 circle (same strict squared-distance comparison against the same circle's center_2x/threshold), ellipse (both through EllipseContains::new(size).contains(2p - center_2x)), sector (circle test and PlaneSector::new(angle_start, angle_sweep) on 2p - center_2x, scanning the whole circle's distance iterator; Sector::center_2x agrees with Circle::center_2x), "
+                    "R05.2 rounded rectangle: the quadrant/row-guard table of RoundedRectangleContains::contains equals the one of the row search (with find/rfind per side) and only the fall-through accepts without consulting a corner; R19.1 triangle canonical edges in contains() and in the scanline intersection; R05.3 rectangle iterator corners.",
+        claim="Decides that both sides evaluate the same membership predicate on the same arguments for circle, ellipse, sector, rounded rectangle and triangle edges; that the per-row searches enumerate exactly the accepted points (mirrored runs, rows without hit, order, uniqueness) is numeric and not decided.",
+        note="Necessary conditions; a divergence is reported as undecided unless one side is visibly a different function.",
+        technique="sibling-implementation agreement via origin-tree and decision-table comparison over MIR",
+        trusted_base=TB,
+        assumptions=[],
+    ),
+    "C18": dict(
+        packs=["c18"], level="other",
+        explanation="R18.1 the circle and ellipse hit tests use the centre offset only through even functions (x*x + y*y, pow(2)): mirror symmetry about both centre lines for all inputs; R18.2/R18.4 under width == height the ellipse threshold is the circle's diameter_to_threshold and the test is x^2 + y^2 < threshold, a = width^2, b = height^2, both doubled-centre formulas are top_left*2 + (size-1); "
+                    "R18.3 in the float and the fixed_point build PlaneSector::new selects EntirePlane exactly under |sweep| >= ANGLE_360DEG (= 2*pi), which accepts every point; R05.2 the corner-quadrant tables of rounded rectangles.",
+        claim="Decides the symmetry, circle-equals-ellipse, full-sweep and corner-table clauses structurally; half-pixel accuracy, contiguity, bounding-box contact and angular tolerances are numeric and not decided.",
+        note="Necessary conditions; overflow of the squared terms is C08's concern.",
+        technique="parity (even-function) analysis and decision-table comparison over MIR in two feature configurations",
+        trusted_base=TB,
+        assumptions=[],
+    ),
 }
